@@ -9,7 +9,9 @@ package main
 
 import (
 	"fmt"
+	"math"
 	"math/big"
+	"os"
 	"sort"
 	"strings"
 
@@ -27,6 +29,8 @@ import (
 )
 
 const blockHeight = 10
+
+var debugOn = os.Getenv("C12_DEBUG") != ""
 
 var (
 	chainID  *big.Int
@@ -440,7 +444,7 @@ func shrink(t *Node, class string, budget int) *Node {
 				saved := n.Items
 				n.Items = append(append([]Item{}, saved[:i]...), saved[i+1:]...)
 				budget--
-				if _, dead := pruneTree(cur); len(dead) > 0 && comparePair(cur).D.Class == class {
+				if _, dead := pruneTree(cur); len(dead) > 0 && classGroup(comparePair(cur).D.Class) == classGroup(class) {
 					changed = true
 				} else {
 					n.Items = saved
@@ -458,7 +462,7 @@ func shrink(t *Node, class string, budget int) *Node {
 			v := n.Val
 			n.Val = 0
 			budget--
-			if comparePair(cur).D.Class == class {
+			if classGroup(comparePair(cur).D.Class) == classGroup(class) {
 				changed = true
 			} else {
 				n.Val = v
@@ -495,28 +499,38 @@ func judgeTree(r *mon.Run, st *twinStats, t *Node, label string) (nontrivial boo
 	}
 	expected, cells := planTrace(t)
 	// a frame that was not planned to run out of gas did: gas skew, the pair is not judged
-	unexpectedOOG := func(tr []string) bool {
-		exp := 0
-		for _, e := range expected {
-			if strings.HasSuffix(e, ":oog") {
-				exp++
+	unexpectedOOG := func(exp, tr []string) bool {
+		e, got := 0, 0
+		for _, x := range exp {
+			if strings.HasSuffix(x, ":oog") || strings.HasSuffix(x, ":static") {
+				e++ // a frame planned to die on a refused write may, on a broken tree, reach its own end instead
 			}
 		}
-		got := 0
-		for _, e := range tr {
-			if strings.HasSuffix(e, ":oog") || strings.HasSuffix(e, ":oog-codestore") {
+		for _, x := range tr {
+			if strings.HasSuffix(x, ":oog") || strings.HasSuffix(x, ":oog-codestore") {
 				got++
 			}
 		}
-		return got > exp
+		return got > e
 	}
-	if unexpectedOOG(pr.A.Trace) || unexpectedOOG(pr.B.Trace) {
+	bTree, _ := pruneTree(t)
+	expectedB, _ := planTrace(bTree)
+	if unexpectedOOG(expected, pr.A.Trace) || unexpectedOOG(expectedB, pr.B.Trace) {
 		r.Count("twin_discarded_gas_skew", 1)
+		if debugOn {
+			fmt.Printf("GASSKEW %s\n  expected %v\n  A %v\n  B %v\n", t.shape(true), expected, pr.A.Trace, pr.B.Trace)
+		}
+		if pr.D.Class != "" {
+			r.Inconclusive("twin pair differs (%s) but a frame ran out of gas that was not planned to: %s", pr.D.Class, t.shape(true))
+		}
 		return false
 	}
 	traceOK := sameStrings(expected, pr.A.Trace)
 	if !traceOK {
 		r.Count("twin_plan_mismatch", 1)
+		if debugOn {
+			fmt.Printf("MISMATCH %s\n  expected %v\n  A %v\n", t.shape(true), expected, pr.A.Trace)
+		}
 	}
 	r.Count("twin_frames_failed_observed", int64(len(pr.A.Trace)))
 
@@ -566,10 +580,13 @@ func judgeTree(r *mon.Run, st *twinStats, t *Node, label string) (nontrivial boo
 func reportTwin(r *mon.Run, st *twinStats, t *Node, pr *pairResult) {
 	r.Count("twin_differences", 1)
 	// attribute to an already minimised signature when removing its culprit ops heals the case
-	for sig, culprits := range st.seenSigs {
-		if !strings.Contains(sig, ":"+pr.D.Class+":") {
-			continue
-		}
+	var sigs []string
+	for sig := range st.seenSigs {
+		sigs = append(sigs, sig)
+	}
+	sort.Strings(sigs)
+	for _, sig := range sigs {
+		culprits := st.seenSigs[sig]
 		h := removeLeafOps(t, culprits)
 		if _, dead := pruneTree(h); len(dead) == 0 || comparePair(h).D.Class == "" {
 			r.Violation(sig, "same minimal cause as an earlier witness", twinWitness{Oracle: "twin", Tree: t, Class: pr.D.Class, InA: pr.D.A, InB: pr.D.B, Shape: t.shape(true)})
@@ -585,6 +602,15 @@ func reportTwin(r *mon.Run, st *twinStats, t *Node, pr *pairResult) {
 	if mp.D.Class == "" { // cannot happen (shrink keeps the class); fall back to the original
 		min, mp = t, pr
 	}
+	sig := twinSignature(min, mp)
+	st.seenSigs[sig] = leafOps(min)
+	what := fmt.Sprintf("program A and its twin B (dead frame bodies removed) end differently [%s]: A: %s | B: %s | minimal program %s",
+		mp.D.Class, mp.D.A, mp.D.B, min.shape(true))
+	r.Violation(sig, what, twinWitness{Oracle: "twin", Tree: t, Minimal: min, Class: mp.D.Class, InA: mp.D.A, InB: mp.D.B, Shape: min.shape(true)})
+}
+
+// twinSignature: C12:<twin|static>:<class group>:<dead frame kind/mode>:<culprit ops> of the minimal program.
+func twinSignature(min *Node, mp *pairResult) string {
 	prefix := "twin"
 	allStatic := len(mp.Dead) > 0
 	for _, d := range mp.Dead {
@@ -595,18 +621,80 @@ func reportTwin(r *mon.Run, st *twinStats, t *Node, pr *pairResult) {
 	if allStatic {
 		prefix = "static"
 	}
-	sig := fmt.Sprintf("C12:%s:%s:%s", prefix, mp.D.Class, min.shape(true))
-	if len(sig) > 150 {
-		sig = sig[:150]
+	group := classGroup(mp.D.Class)
+	// culprit ops: effects left in the minimal program's dead frames (frame kinds when no effect is left)
+	set := map[string]bool{}
+	var frames []string
+	var rec func(n *Node, inDead bool)
+	rec = func(n *Node, inDead bool) {
+		dead := inDead || isDead(n)
+		if !inDead && isDead(n) {
+			m := "static"
+			if isFailEnd(n.End) {
+				m = modeOfEnd(n.End)
+			}
+			if prefix == "static" || group == "returned-logs" {
+				frames = append(frames, m)
+			} else {
+				frames = append(frames, n.Kind+"/"+m)
+			}
+		}
+		for _, it := range n.Items {
+			if it.Child != nil {
+				if dead && len(it.Child.Items) == 0 {
+					set[it.Child.Kind] = true
+				}
+				rec(it.Child, dead)
+			} else if dead {
+				op := it.Op
+				if strings.HasSuffix(op, "probe") {
+					op = "probe"
+				}
+				set[op] = true
+			}
+		}
 	}
-	st.seenSigs[sig] = leafOps(min)
-	what := fmt.Sprintf("program A and its twin B (dead frame bodies removed) end differently [%s]: A: %s | B: %s | minimal program %s",
-		mp.D.Class, mp.D.A, mp.D.B, min.shape(true))
-	r.Violation(sig, what, twinWitness{Oracle: "twin", Tree: t, Minimal: min, Class: mp.D.Class, InA: mp.D.A, InB: mp.D.B, Shape: min.shape(true)})
+	rec(min, false)
+	var ops []string
+	for k := range set {
+		ops = append(ops, k)
+	}
+	sort.Strings(ops)
+	sort.Strings(frames)
+	sig := fmt.Sprintf("C12:%s:%s:%s:%s", prefix, group, strings.Join(dedup(frames), "+"), strings.Join(ops, "+"))
+	if prefix == "static" {
+		sig = fmt.Sprintf("C12:static:%s:%s", group, strings.Join(ops, "+"))
+	}
+	if len(sig) > 140 {
+		sig = sig[:140]
+	}
+	return sig
 }
 
-func bootTwin() {
-	env.BootCore(env.Forks{}, nil)
+func classGroup(c string) string {
+	switch c {
+	case "accounts", "state-root", "nonce", "balance", "codehash", "codesize", "storage", "exist":
+		return "state"
+	}
+	return c
+}
+
+func dedup(s []string) []string {
+	var out []string
+	for i, x := range s {
+		if i == 0 || x != s[i-1] {
+			out = append(out, x)
+		}
+	}
+	return out
+}
+
+func bootTwin(legacy013 bool) {
+	f := env.Forks{}
+	if legacy013 {
+		f.Override = map[int]uint64{13: math.MaxUint64}
+	}
+	env.BootCore(f, nil)
 	common.SetBlockHeight(blockHeight)
 	chainID = common.GetChainId(blockHeight)
 	installTraceHook()
